@@ -18,7 +18,8 @@ def spec(chk):
     return dict(
         cfgs=[dict(name="merge", acts=["SetV", "Expire", "Merge"], depth=3 if q else 4, deep_depth=4 if q else 5, eoc=True,
                    random=100 if q else 1000),
-              dict(name="merge1", acts=["SetV", "Expire", "Merge"], srckeys=(1,), depth=4 if q else 5, eoc=True, random=100 if q else 1000)],
+              dict(name="merge1", acts=["SetV", "Expire", "Merge"], srckeys=(1,), depth=5, edge_sample=0.3 if q else None, deep_depth=None if q else 6,
+                   eoc=True, random=100 if q else 1000)],
         invs=INVS, props=PROPS, footprint=FOOTPRINT,
         nontrivial=lambda frm, act: act["a"] == "Merge")
 
